@@ -526,8 +526,10 @@ func (w *world) doSync(pl syncPlan) syncResult {
 
 	// bookkeeping from the recorded calls
 	fetched := false
+	lastAck, anyAck := uint64(0), false
 	for _, c := range r.Calls {
 		if c.Kind == "WriteTx" && c.Acked {
+			lastAck, anyAck = c.HWM, true
 			if c.HWM > w.ackedMax {
 				w.ackedMax = c.HWM
 			}
@@ -555,6 +557,12 @@ func (w *world) doSync(pl syncPlan) syncResult {
 		w.conn.CloseDB()
 	}
 	w.posEvents = nil
+	// what the node publishes after a pass is not above the service's latest acknowledgement: a
+	// service that was rewound acknowledges less than it once did, and retention works from this value
+	w.evals++
+	if anyAck && post.HWM > lastAck {
+		w.failf("C14.hwm-not-above-acknowledged", "hwm-above-latest-ack/sync", map[string]any{"hwm": post.HWM, "latest_acknowledged_in_pass": lastAck, "largest_ever_acknowledged": w.ackedMax})
+	}
 	w.afterStep("sync/"+r.Rel, post, true)
 
 	// a pass fails only when the service (or the link to it) fails
